@@ -507,6 +507,11 @@ func (r *RowCache) RowsShallow() map[string]model.Model {
 	return result
 }
 
+// maxConditionSubsets bounds the number of subsets of the conditions of a where
+// clause that uuidsByConditionsAsIndexes tries as indexes: a request with a few
+// dozen equality conditions would otherwise exhaust memory
+const maxConditionSubsets = 1 << 10
+
 // uuidsByConditionsAsIndexes checks possible indexes that can be built with a
 // subset of the provided conditions and returns the uuids for the models that
 // match that subset of conditions. If no conditions could be used as indexes,
@@ -664,6 +669,12 @@ func (r *RowCache) uuidsByConditionsAsIndexes(conditions []ovsdb.Condition, nati
 			// this is not a condition we can use as an index, skip it
 			if iCondition == nil {
 				continue
+			}
+			// the power set doubles with every condition: stop extending it at
+			// some point. Conditions that are not looked up through an index
+			// here are evaluated explicitly by the caller anyway.
+			if len(ps) > maxConditionSubsets {
+				break
 			}
 			// the power set is built appending the subsets that result from
 			// adding each item to each of the previous subsets
